@@ -518,7 +518,8 @@ pub fn run_case(rt: &tokio::runtime::Runtime, line: &str) -> String {
             ph = read_phases(&proxies).await;
         }
         // let the barrier settle (start_blocking after PreBlocking, handle.stop() after Scanning)
-        tokio::time::sleep(Duration::from_millis(30)).await;
+        let settle: u64 = std::env::var("UM_ROUTE_SETTLE_MS").ok().and_then(|v| v.parse().ok()).unwrap_or(30);
+        tokio::time::sleep(Duration::from_millis(settle)).await;
         // 5. probes
         let mut obs: BTreeMap<u64, Vec<Obs>> = BTreeMap::new();
         let mut max_stall = Duration::from_millis(0);
